@@ -5,6 +5,8 @@ before and after; the same call repeated on equal inputs must return bit-identic
 alias grid storage (np.shares_memory + in-place edit probe); term objects reused over a time loop."""
 import copy
 
+import os
+
 import numpy as np
 import scipy.sparse as sp
 
@@ -210,7 +212,55 @@ def build_call(name, rng, m, g, spec, dirty=None):
     raise KeyError(name)
 
 
+FRESH_FUNCS = ['diffusionTerm', 'convectionTerm', 'convectionUpwindTerm', 'convectionUpwindTerm+uu', 'convectionTVDupwindRHSTerm', 'linearSourceTerm',
+               'constantSourceTerm', 'transientTerm:cellvar', 'gradientTerm', 'divergenceTerm', 'linearMean', 'harmonicMean', 'upwindMean',
+               'boundaryConditionsTerm', 'cellValuesWithBoundaries', 'cellLocations', 'faceLocations', 'solveMatrixPDE', 'solveExplicitPDE', 'solvePDE']
+
+
+def digest_of_call(case, warm=False):
+    """the bits one builder call returns for the inputs of `case` (regenerated from its seed), as a printable digest"""
+    rng = gen.rng_for(*case['seed'])
+    cls = case['cls']
+    nmax = case.get('nmax', 4 if NDIM[cls] < 3 else 3)
+    faces, meta, g, m, spec = setup(rng, cls, nmax, case.get('geo'), case.get('per', False))
+    if warm:
+        gen.warm_decoy(pf, cls, faces, force=True)
+    with np.errstate(all='ignore'):
+        fn, args, allowed = build_call(case['func'], rng, m, g, spec, case.get('dirty'))
+        ret = fn(args)
+    return repr(canon(ret))
+
+
+def run_fresh(case):
+    """history independence across the whole life of a process: what a builder returns in this worker - after thousands of calls on
+    other grids, a sibling grid of the same shape and one with the cell counts reversed - is bit for bit what a brand-new interpreter
+    returns for the same inputs as its very first call"""
+    import subprocess
+    import sys
+    import json as _json
+    inner = {k_: v_ for k_, v_ in case.items() if k_ != 'kind'}
+    here = digest_of_call(inner, warm=True)
+    env = dict(os.environ, PVMON_NO_DECOY='1')
+    code = ('import sys, json\nimport pvmon\npvmon.pin_paths()\nfrom pvmon.props import c15\n'
+            'print("DIGEST " + c15.digest_of_call(json.loads(sys.argv[1]), warm=False))\n')
+    pr = subprocess.run([sys.executable, '-B', '-W', 'ignore', '-c', code, _json.dumps(inner)], capture_output=True, text=True, timeout=300, env=env)
+    lines = [l_ for l_ in pr.stdout.splitlines() if l_.startswith('DIGEST ')]
+    key = '%s/fresh/%s' % (case['cls'], case['func'])
+    cov = {'fresh_process_comparisons': 1, 'cls:' + case['cls']: 1}
+    if pr.returncode != 0 or not lines:
+        return {'verdict': 'inconclusive', 'key': key, 'msg': 'helper process failed: ' + pr.stderr[-300:], 'cov': cov, 'nontrivial': False}
+    fresh = lines[-1][len('DIGEST '):]
+    sample = {'kind': 'fresh', 'function': case['func'], 'cls': case['cls']}
+    if fresh != here:
+        return {'verdict': 'violated', 'mech': '%s/depends-on-process-history' % case['func'], 'key': key, 'cov': cov, 'nontrivial': True,
+                'msg': '%s on %s: the bits returned in a long-lived process (other grids of the same class used before, among them one with the cell counts reversed) differ from what a fresh interpreter returns for equal inputs' % (case['func'], case['cls']),
+                'witness': {'case': case}, 'sample': sample}
+    return {'verdict': 'held', 'key': key, 'cov': cov, 'nontrivial': True, 'sample': sample}
+
+
 def run_case(case):
+    if case.get('kind') == 'fresh':
+        return run_fresh(case)
     rng = gen.rng_for(*case['seed'])
     cls = case['cls']
     cov, bad = {}, []
@@ -246,6 +296,9 @@ def run_case(case):
                 s0 = snapshot(args + [m], visible_only_for=visible)
                 ret = fn(args)
                 s1 = snapshot(args + [m], visible_only_for=visible)
+            def _plain(o_):
+                return sp.issparse(o_) or isinstance(o_, (np.ndarray, pf.FaceVariable)) or (isinstance(o_, (tuple, list)) and len(o_) > 0 and all(_plain(x_) for x_ in o_))
+            ret_c0 = canon(ret) if ('SOLUTION' not in allowed and _plain(ret)) else None
             changed = diff_snap(s0, s1)
             cov['purity_calls:' + name] = 1
             cov['arrays_digested'] = len(s0)
@@ -262,9 +315,13 @@ def run_case(case):
                     if src_ is not None:
                         src_.value = np.asarray(src_.value) * 3.0 - 2.0        # the source of update_value() is edited; the updated variable is not
                         cov['update_source_edited'] = 1
+                # ... with other grids of the same class at work in between (same cell counts and extent but other spacing; the
+                # counts in reverse order): what the function returns for THESE inputs does not depend on what it was used for meanwhile
+                gen.warm_decoy(pf, cls, faces, force=True)
+                cov['sibling_grids_between_repeated_calls'] = 1
                 ret3 = fn(args)
                 if canon(ret) != canon(ret3) and name not in ('solveExplicitPDE',):
-                    bad.append(('nondeterministic', '%s on %s: repeated call on the same objects returned different bits' % (name, cls)))
+                    bad.append(('nondeterministic', '%s on %s: repeated call on the same objects (other grids of the same class were used in between) returned different bits' % (name, cls)))
             # history independence: the inputs are edited IN PLACE (same objects, same array objects: D.xvalue[...] = ..., phi.value = ...,
             # BC.left.c = ...) and the function is called again; a third, never used set of equal inputs edited the same way is the
             # reference - "repeated calls with equal inputs return bit-identical results" whatever was built before from these objects
@@ -277,6 +334,13 @@ def run_case(case):
                     cov['history_independence_calls'] = 1
                     if canon(ret_a) != canon(ret_c):
                         bad.append(('stale-after-inplace-edit', '%s on %s: after an in-place edit of its inputs the function does not return what it returns for fresh, equal inputs (it remembers the previous build)' % (name, cls)))
+            # a result the caller kept is the caller's: the later calls above (same inputs, equal inputs, edited inputs, other grids)
+            # must not have rewritten it. Decided for results that are plain data (arrays, sparse matrices, tuples of them, face
+            # variables); variables that share their boundary conditions with an input by design are left out.
+            if ret_c0 is not None:
+                cov['kept_result_probes'] = 1
+                if canon(ret) != ret_c0:
+                    bad.append(('result-rewritten', '%s on %s: the object returned by the first call changed while the function was called again (results share a work array)' % (name, cls)))
             # aliasing of grid storage
             hits = aliases(ret, [m])
             if hits:
@@ -429,6 +493,15 @@ def plan(tier, seed):
         step = 19 if NDIM[cls] == 3 else 38
         for j in range(0, len(cases), step):
             chunks.append(cases[j:j + step])
+    # fresh-interpreter comparisons: a helper process each, spread over the workers (they run after the other chunks are queued)
+    fr = []
+    for ci, cls in enumerate(CLASSES):
+        picks = FRESH_FUNCS if tier != 'quick' else [FRESH_FUNCS[(3 * ci + j_) % len(FRESH_FUNCS)] for j_ in range(6)] + (['convectionTerm', 'convectionUpwindTerm'] if NDIM[cls] > 1 else [])
+        for j_, fn in enumerate(dict.fromkeys(picks)):
+            for rep in range((3 if (NDIM[cls] > 1 and fn.startswith('convection')) else 1) if tier == 'quick' else 3):
+                fr.append({'cls': cls, 'kind': 'fresh', 'func': fn, 'per': bool(rep % 2) and gen.periodic_ok(cls, NDIM[cls] - 1), 'seed': [seed, 15, 700 + ci, j_, rep]})
+    for j in range(0, len(fr), 2):
+        chunks.append(fr[j:j + 2])
     return chunks
 
 
